@@ -64,6 +64,22 @@ class SimTime:
 SIMTIME = SimTime()
 
 
+_pinned = []
+
+
+def _pin_once():
+    """baton passing between threads is several times faster when they share one core"""
+    if not _pinned:
+        _pinned.append(1)
+        try:
+            import os
+            cpus = sorted(os.sched_getaffinity(0))
+            if len(cpus) > 1:
+                os.sched_setaffinity(0, {cpus[os.getpid() % len(cpus)]})
+        except (AttributeError, OSError):
+            pass
+
+
 # --------------------------------------------------------------------------- world
 class World:
     """Discrete-event world.  Mono mode: the harness thread calls driver methods and every
@@ -147,6 +163,7 @@ class World:
 
     def run(self):
         """main thread: run all spawned contexts until they finish or the horizon is hit"""
+        _pin_once()
         self.main = Ctx(self, "main", None)
         for c in self.ctxs:
             c.thread = threading.Thread(target=c._run, daemon=True)
